@@ -144,7 +144,7 @@ def run(rec, tier, seed):
                 "(grow-shared, swap-element, disjoint, sym-grow, collinear-swap, single-swap); checks: every inserted atom inside the cell "
                 "(fractional in [0,1]), matched + inserted atoms form a proper rigid image of search + replacement coordinates modulo the "
                 "lattice (exact copies: bound 1e-4 A), result invariant under a joint rigid motion of both patterns. distinct = specs")
-    pairs = ['grow-shared', 'swap-element', 'disjoint', 'sym-grow', 'collinear-swap', 'single-swap', 'grow-planar']
+    pairs = ['grow-shared', 'swap-element', 'disjoint', 'sym-grow', 'collinear-swap', 'single-swap', 'grow-planar', 'nudge-swap']
     cells = list(geo.CELLS)
     nseed = 2 if tier == 'quick' else 6
     for pi, pair in enumerate(pairs):
